@@ -2,8 +2,11 @@
 #include <crab/domains/split_dbm.hpp>
 using namespace simd;
 using D1 = split_dbm_domain<z_number, varname_t, G_int64_ss>;
-SIM_REGISTER_DOMAIN(zones_sdbm_ss, D1, "zones_sdbm_ss", CAP_EXACT_EXPORT | CAP_INT64 | CAP_NTOW)
+SIM_REGISTER_DOMAIN(zones_sdbm_ss, D1, "zones_sdbm_ss",
+                    CAP_EXACT_EXPORT | CAP_INT64 | CAP_NTOW | CAP_BACKWARD)
 using D2 = split_dbm_domain<z_number, varname_t, G_int64_pt>;
-SIM_REGISTER_DOMAIN(zones_sdbm_pt, D2, "zones_sdbm_pt", CAP_EXACT_EXPORT | CAP_INT64 | CAP_NTOW)
+SIM_REGISTER_DOMAIN(zones_sdbm_pt, D2, "zones_sdbm_pt",
+                    CAP_EXACT_EXPORT | CAP_INT64 | CAP_NTOW | CAP_BACKWARD)
 using D3 = split_dbm_domain<z_number, varname_t, G_int64_ht>;
-SIM_REGISTER_DOMAIN(zones_sdbm_ht, D3, "zones_sdbm_ht", CAP_EXACT_EXPORT | CAP_INT64 | CAP_NTOW)
+SIM_REGISTER_DOMAIN(zones_sdbm_ht, D3, "zones_sdbm_ht",
+                    CAP_EXACT_EXPORT | CAP_INT64 | CAP_NTOW | CAP_BACKWARD)
